@@ -2,6 +2,7 @@ package main
 
 import (
 	"fmt"
+	"strings"
 
 	"verif/ev"
 	vrt "verif/rt"
@@ -122,7 +123,7 @@ func registerRound5() {
 	for _, op := range []string{"search", "bind", "delete"} {
 		regSpec(&Spec{
 			Name: "message-id-reused-while-in-progress-" + op, Props: []string{"C03", "C06"},
-			Conns: []ConnSpec{{Ops: []string{op, op + "@dup", "bind"}, Segs: []int{1, 1, 1}, H: map[int]*HSpec{1: {WaitStarted: 2}}, Expect: 3}},
+			Conns: []ConnSpec{{Ops: []string{op, op + "@dup", "bind"}, Segs: []int{1, 1, 1}, H: map[int]*HSpec{1: {WaitStarted: 3}}, Expect: 3}},
 			Quick: 2, Thor: 3,
 		})
 	}
@@ -248,4 +249,122 @@ func registerRound5() {
 			Check: servedCheck("C07", "a connection is not served while or after accepts fail for lack of descriptors"), Quick: 2, Thor: 3,
 		})
 	}
+
+	// ---------------------------------------------------------------- sixth round: handlers that take (virtual) time
+	// a handler still at work when the connection's read deadline expires: the connection ends only after it
+	regSpec(&Spec{
+		Name: "read-timeout-with-handler-at-work", Props: []string{"C08", "C06", "C12"},
+		Srv:   SrvOpts{ReadTimeout: secs(5)},
+		Conns: []ConnSpec{{Ops: []string{"bind", "search"}, Segs: []int{1, 1}, H: map[int]*HSpec{2: {Sleep: 10}}, Read: "all", ReadFor: 60}},
+		Quick: 2, Thor: 3,
+	})
+	// a handler still at work long after its client has gone (10 and 100 virtual seconds)
+	for _, d := range []int{10, 100} {
+		regSpec(&Spec{
+			Name: fmt.Sprintf("handler-works-%ds-after-client-left", d), Props: []string{"C08", "C12", "C10"},
+			Conns: []ConnSpec{{Ops: []string{"search"}, H: map[int]*HSpec{1: {Sleep: d}}, Read: "none", End: "close"}},
+			Quick: 2, Thor: 3,
+		})
+		regSpec(&Spec{
+			Name: fmt.Sprintf("handler-works-%ds-after-unbind", d), Props: []string{"C10", "C08", "C12"},
+			Conns: []ConnSpec{{Ops: []string{"search", "unbind"}, Segs: []int{1, 1}, H: map[int]*HSpec{1: {Sleep: d}}, Read: "all"}},
+			Quick: 2, Thor: 3,
+		})
+	}
+	// ---------------------------------------------------------------- server configurations x core scenarios: every
+	// option of NewServer / Run next to a blocked handler, an Unbind pipeline, a fault and a Stop
+	for _, cfg := range []struct {
+		name string
+		o    SrvOpts
+	}{
+		{"no-panic-recovery", SrvOpts{NoRecovery: true}},
+		{"read-timeout", SrvOpts{ReadTimeout: secs(300)}},
+		{"write-timeout", SrvOpts{WriteTimeout: secs(300)}},
+		{"read-and-write-timeout", SrvOpts{ReadTimeout: secs(300), WriteTimeout: secs(300)}},
+		{"debug-logger", SrvOpts{Debug: true}},
+		{"no-onclose", SrvOpts{NoOnClose: true}},
+	} {
+		regSpec(&Spec{
+			Name: "cfg-" + cfg.name + "-blocked-handler-then-request", Props: []string{"C06", "C05", "C03"},
+			Srv:   cfg.o,
+			Conns: []ConnSpec{{Ops: []string{"bind", "search", "modify"}, Segs: []int{1, 1, 1}, H: map[int]*HSpec{2: {WaitStarted: 3, Frames: []int{10}}}, Expect: 4}},
+			Quick: 2, Thor: 3,
+		})
+		regSpec(&Spec{
+			Name: "cfg-" + cfg.name + "-unbind-pipeline", Props: []string{"C10", "C08"},
+			Srv:   cfg.o,
+			Conns: []ConnSpec{{Ops: []string{"search", "unbind", "bind"}, H: map[int]*HSpec{1: {Yields: 2}}, Read: "all"}},
+			Quick: 2, Thor: 3,
+		})
+		regSpec(&Spec{
+			Name: "cfg-" + cfg.name + "-stop-while-handler-runs", Props: []string{"C12", "C11", "C08"},
+			Srv:      cfg.o,
+			Conns:    []ConnSpec{{Ops: []string{"search"}, H: map[int]*HSpec{1: {Yields: 3}}, Read: "all"}, {Ops: []string{"bind"}, Expect: 1, End: "stay"}},
+			StopWhen: "note:started-1", Extra: watchStarted(1), Quick: 2, Thor: 3,
+		})
+		if !cfg.o.NoRecovery {
+			regSpec(&Spec{
+				Name: "cfg-" + cfg.name + "-panic-next-to-bystander", Props: []string{"C07", "C08"},
+				Srv: cfg.o,
+				Conns: []ConnSpec{
+					{Ops: []string{"bind", "search"}, H: map[int]*HSpec{2: {Panic: "before"}}, Expect: 1, EndNote: "panicked", Name: "faulty"},
+					{Ops: []string{"search"}, Expect: 1, Name: "bystander", EndNote: "faulty-done"},
+					{Ops: []string{"bind", "search"}, Segs: []int{1, 1}, Expect: 2, Name: "fresh", After: 2},
+				},
+				Check: bystandersServed, Quick: 2, Thor: 3,
+			})
+		}
+	}
+
+	// ---------------------------------------------------------------- C13: trouble inside the tunnel
+	// a malformed message inside the tunnel ends the connection; whatever the server still sends is TLS
+	regSpec(&Spec{
+		Name: "malformed-message-inside-the-tunnel", Props: []string{"C13", "C07"},
+		Conns: []ConnSpec{{Ops: []string{"starttls", "bind", "garbage"}, Segs: []int{1, 1}, Read: "all"}},
+		Check: startTLSCheck(1), Quick: 2, Thor: 3,
+	})
+	// the client closes its side of the TLS session (close_notify) but not the TCP connection, then sends a
+	// request in the clear: it is never served and nothing is answered in the clear
+	regSpec(&Spec{
+		Name: "cleartext-after-client-close-notify", Props: []string{"C13"},
+		Conns: []ConnSpec{{Ops: []string{"starttls", "bind", "tls-closewrite", "search"}, Segs: []int{1, 1}, Read: "all", ReadFor: 30}},
+		Check: func(x *vrt.Sched, w *World) []Finding {
+			var fs []Finding
+			for _, f := range startTLSCheck(1)(x, w) {
+				if !strings.HasSuffix(f.Key, "(client to server)") { // this client sends in the clear on purpose
+					fs = append(fs, f)
+				}
+			}
+			if x.Deadlock || x.Crash != nil || x.Horizon || w.Notes["c1-closewrite"] == 0 {
+				return fs
+			}
+			for _, d := range w.Dispatch {
+				if reqOfMsg(d.MsgID) == 4 {
+					fs = append(fs, Finding{"C13", "a request that arrives in the clear on an upgraded connection is served", fmt.Sprintf("message %d dispatched to the %s handler after the client's close_notify", d.MsgID, d.Route)})
+				}
+			}
+			return fs
+		},
+		Quick: 2, Thor: 3,
+	})
+	// ---------------------------------------------------------------- C09: connections that never send a request
+	// (port probes) between connections that do
+	regSpec(&Spec{
+		Name: "silent-connections-between-clients", Props: []string{"C09", "C08"},
+		Srv: SrvOpts{OnCloseYields: 1},
+		Conns: []ConnSpec{
+			{Ops: []string{"bind", "search"}, Segs: []int{1, 1}, Sync: true, SendNote: "c5-done", Expect: 2},
+			{Name: "probe1", WaitNote: "c1-connected"},
+			{Ops: []string{"bind"}, Expect: 1, After: 2},
+			{Name: "probe2", After: 3},
+			{Ops: []string{"bind", "search"}, Expect: 2, After: 4},
+		},
+		Extra: func(w *World) {
+			vrt.GoNamed("watch", func() {
+				vrt.WaitUntil("accepted", func() bool { return vnet.Accepted() > 0 })
+				vrt.Atomic(func() { w.Notes["c1-connected"]++ })
+			})
+		},
+		Quick: 2, Thor: 3,
+	})
 }
